@@ -96,6 +96,22 @@ class Harness(object):
         import jsonschema
         self.js = jsonschema
         self.ref_cache = {}
+        # import-time state of every athlib module: globals / class attributes that are None or EMPTY containers right
+        # after import are the lazily built tables, caches and memos; they are put back to that state between runs
+        # (empty containers are cleared in place so that references held elsewhere stay valid)
+        self.initial = []
+        for m in mods:
+            for k, v in list(vars(m).items()):
+                if k.startswith('__'):
+                    continue
+                if v is None or (isinstance(v, (dict, list, set)) and len(v) == 0):
+                    self.initial.append((m, k, v))
+                elif isinstance(v, type) and getattr(v, '__module__', '') == m.__name__:
+                    for ck, cv in list(vars(v).items()):
+                        if not ck.startswith('__') and (cv is None or (isinstance(cv, (dict, list, set)) and len(cv) == 0)):
+                            self.initial.append((v, ck, cv))
+        self.instances = [(g, dict(g.__dict__)) for g in (self.a.ag2015, self.a.ag2023, self.a.aag)]
+        ctx.info['resettable_state'] = sorted('%s.%s' % (getattr(o, '__name__', o), k) for o, k, v in self.initial)[:60]
 
     def fn(self, name):
         if name in ('schema_valid', 'valid_against_schema'):
@@ -116,15 +132,19 @@ class Harness(object):
         return go
 
     def reset(self, warm, cache):
-        self.am._scoring_objects = None
-        self.hm._table = None
-        self.sm._DB = None
-        for g in (self.a.ag2015, self.a.ag2023, self.a.aag):
-            for k in ('_data', '_fx', '_fx1', '_pfac', '_ax', '_ax1', '_page', 'data_path'):
-                g.__dict__.pop(k, None)
-        # any module-level memo a change may have added is cleared too (dicts created empty at import)
-        self.u._schema_valid_cache.clear()
-        self.u._valid_against_schema_cache.clear()
+        for owner, k, v in self.initial:
+            if v is None:
+                setattr(owner, k, None)
+            else:
+                cur = getattr(owner, k, None)
+                if cur is v:
+                    v.clear()
+                else:
+                    v.clear()
+                    setattr(owner, k, v)
+        for g, d0 in self.instances:
+            g.__dict__.clear()
+            g.__dict__.update(d0)
         if cache == 'full':
             for i in range(20):
                 self.u._schema_valid_cache[('dummy-%d.json' % i, self.js.Draft3Validator)] = True
